@@ -646,8 +646,11 @@ func run(c *vf.Ctx) {
 				a.Depth = L - 1
 			}
 		}
-		if (op == "outerflip" || op == "outersigflip" || op == "stripouter" || op == "claimdirect") && L < 1 {
+		if (op == "outerflip" || op == "outersigflip" || op == "stripouter" || op == "claimdirect" || op == "wraptwice") && L < 1 {
 			continue
+		}
+		if op == "wraptwice" {
+			a.Seen = false
 		}
 		r, _, _ := runCase(c, L, a, rng, -1)
 		c.Distinct(fmt.Sprintf("campaign|%s|%d|%d", op, a.Depth, L))
